@@ -29,11 +29,12 @@ CONSTANTS Producers,    \* set of producer ids (1..9)
 
 VARIABLES queue, token, wpc, cnt, status, cur, chan, waiting, ebw, written, fl, closed,
           ppc, pn, fpc, failed, before, flag, hstate, snap, refs, mainHeld, dl, displaced,
-          done, lastRes, rep
+          done, lastRes, rep,
+          consSince     \* history: entries handed to the stream since the tracked batch of flush requests was collected
 
 vars == <<queue, token, wpc, cnt, status, cur, chan, waiting, ebw, written, fl, closed,
           ppc, pn, fpc, failed, before, flag, hstate, snap, refs, mainHeld, dl, displaced,
-          done, lastRes, rep>>
+          done, lastRes, rep, consSince>>
 
 Entry(p, n) == 100 * p + n
 SeqRange(s) == {s[i] : i \in 1..Len(s)}
@@ -49,7 +50,7 @@ Init ==
     /\ before = [f \in Flushers |-> {}]
     /\ flag = FALSE /\ hstate = "held" /\ snap = {} /\ refs = 1 + Cardinality(Producers)
     /\ mainHeld = TRUE /\ dl = FALSE /\ displaced = {} /\ done = {} /\ lastRes = "none"
-    /\ rep = FALSE
+    /\ rep = FALSE /\ consSince = 0
 
 \* ---------------- producers (Inner::push) ----------------------------------------------
 PVars == <<ppc, pn>>
@@ -59,6 +60,7 @@ AStart(p) ==
     /\ UNCHANGED <<queue, token, wpc, cnt, status, cur, chan, waiting, ebw, written, fl, closed,
                    pn, fpc, failed, before, flag, hstate, snap, refs, mainHeld, dl, displaced,
                    done, lastRes, rep>>
+    /\ UNCHANGED consSince
 Push(p) ==
     /\ ppc[p] = "push"
     /\ LET e == Entry(p, pn[p] + 1) IN
@@ -71,6 +73,7 @@ Push(p) ==
     /\ ppc' = [ppc EXCEPT ![p] = "unpark"]
     /\ UNCHANGED <<token, wpc, cnt, status, cur, chan, waiting, ebw, written, fl, closed, fpc,
                    failed, before, flag, hstate, snap, refs, mainHeld, dl, done, lastRes, rep>>
+    /\ UNCHANGED consSince
 PUnpark(p) ==
     /\ ppc[p] = "unpark"
     /\ token' = TRUE
@@ -78,6 +81,7 @@ PUnpark(p) ==
     /\ UNCHANGED <<queue, wpc, cnt, status, cur, chan, waiting, ebw, written, fl, closed, pn,
                    fpc, failed, before, flag, hstate, snap, refs, mainHeld, dl, displaced, done,
                    lastRes, rep>>
+    /\ UNCHANGED consSince
 DropSink(p) ==
     /\ ppc[p] = "idle" /\ pn[p] = MaxApp
     /\ ppc' = [ppc EXCEPT ![p] = "dropped"]
@@ -85,6 +89,7 @@ DropSink(p) ==
     /\ UNCHANGED <<queue, token, wpc, cnt, status, cur, chan, waiting, ebw, written, fl, closed,
                    pn, fpc, failed, before, flag, hstate, snap, mainHeld, dl, displaced, done,
                    lastRes, rep>>
+    /\ UNCHANGED consSince
 \* the harness's own queue handle, dropped once the join handle has been dealt with
 DropMain ==
     /\ mainHeld /\ hstate \in {"forgotten", "joined"}
@@ -92,6 +97,7 @@ DropMain ==
     /\ UNCHANGED <<queue, token, wpc, cnt, status, cur, chan, waiting, ebw, written, fl, closed,
                    ppc, pn, fpc, failed, before, flag, hstate, snap, dl, displaced, done,
                    lastRes, rep>>
+    /\ UNCHANGED consSince
 
 \* ---------------- flushers (Inner::flush_async) ----------------------------------------
 FSend(f) ==
@@ -103,6 +109,7 @@ FSend(f) ==
     /\ fpc' = [fpc EXCEPT ![f] = "unpark"]
     /\ UNCHANGED <<queue, token, wpc, cnt, status, cur, waiting, ebw, written, fl, closed, ppc,
                    pn, flag, hstate, snap, refs, mainHeld, dl, displaced, done, lastRes, rep>>
+    /\ UNCHANGED consSince
 FUnpark(f) ==
     /\ fpc[f] = "unpark"
     /\ token' = TRUE
@@ -110,6 +117,7 @@ FUnpark(f) ==
     /\ UNCHANGED <<queue, wpc, cnt, status, cur, chan, waiting, ebw, written, fl, closed, ppc, pn,
                    failed, before, flag, hstate, snap, refs, mainHeld, dl, displaced, done,
                    lastRes, rep>>
+    /\ UNCHANGED consSince
 \* a request whose signal was dropped by a failed send completes by itself
 FComplete(f) ==
     /\ fpc[f] \in {"unpark", "wait"} /\ failed[f] /\ f \notin done
@@ -117,27 +125,32 @@ FComplete(f) ==
     /\ UNCHANGED <<queue, token, wpc, cnt, status, cur, chan, waiting, ebw, written, fl, closed,
                    ppc, pn, fpc, failed, before, flag, hstate, snap, refs, mainHeld, dl,
                    displaced, lastRes, rep>>
+    /\ UNCHANGED consSince
 
 \* ---------------- join handle ----------------------------------------------------------
 HSetFlag ==
     /\ hstate = "held" /\ flag' = TRUE /\ hstate' = "unpark" /\ snap' = Ended
     /\ UNCHANGED <<queue, token, wpc, cnt, status, cur, chan, waiting, ebw, written, fl, closed,
                    ppc, pn, fpc, failed, before, refs, mainHeld, dl, displaced, done, lastRes, rep>>
+    /\ UNCHANGED consSince
 HUnpark ==
     /\ hstate = "unpark" /\ token' = TRUE /\ hstate' = "joining"
     /\ UNCHANGED <<queue, wpc, cnt, status, cur, chan, waiting, ebw, written, fl, closed, ppc, pn,
                    fpc, failed, before, flag, snap, refs, mainHeld, dl, displaced, done, lastRes,
                    rep>>
+    /\ UNCHANGED consSince
 HJoin ==
     /\ hstate = "joining" /\ wpc = "Done" /\ hstate' = "joined"
     /\ UNCHANGED <<queue, token, wpc, cnt, status, cur, chan, waiting, ebw, written, fl, closed,
                    ppc, pn, fpc, failed, before, flag, snap, refs, mainHeld, dl, displaced, done,
                    lastRes, rep>>
+    /\ UNCHANGED consSince
 HForget ==
     /\ AllowForget /\ hstate = "held" /\ hstate' = "forgotten"
     /\ UNCHANGED <<queue, token, wpc, cnt, status, cur, chan, waiting, ebw, written, fl, closed,
                    ppc, pn, fpc, failed, before, flag, snap, refs, mainHeld, dl, displaced, done,
                    lastRes, rep>>
+    /\ UNCHANGED consSince
 
 \* ---------------- time -------------------------------------------------------------------
 Tick ==
@@ -145,6 +158,7 @@ Tick ==
     /\ UNCHANGED <<queue, token, wpc, cnt, status, cur, chan, waiting, ebw, written, fl, closed,
                    ppc, pn, fpc, failed, before, flag, hstate, snap, refs, mainHeld, displaced,
                    done, lastRes, rep>>
+    /\ UNCHANGED consSince
 
 \* ---------------- writer thread (Receiver::run) -----------------------------------------
 WUnch == UNCHANGED <<ppc, pn, fpc, failed, before, flag, hstate, snap, refs, mainHeld, displaced>>
@@ -154,6 +168,7 @@ OuterStart ==
     /\ dl' = FALSE /\ wpc' = "Drain" /\ cnt' = 0
     /\ UNCHANGED <<queue, token, status, cur, chan, waiting, ebw, written, fl, closed, done,
                    lastRes, rep>> /\ WUnch
+    /\ UNCHANGED consSince
 
 \* drain_until_deadline: queue.pop()
 PopSome(at) ==
@@ -161,11 +176,13 @@ PopSome(at) ==
     /\ cur' = Head(queue) /\ queue' = Tail(queue)
     /\ UNCHANGED <<token, wpc, cnt, status, chan, waiting, ebw, written, fl, closed, dl, done,
                    lastRes, rep>> /\ WUnch
+    /\ UNCHANGED consSince
 PopNone(at, next) ==
     /\ wpc = at /\ ~rep /\ cur = 0 /\ queue = <<>>
     /\ status' = "Drained" /\ wpc' = next
     /\ UNCHANGED <<queue, token, cnt, cur, chan, waiting, ebw, written, fl, closed, dl, done,
                    lastRes, rep>> /\ WUnch
+    /\ UNCHANGED consSince
 \* consume(entry): stream.next, whatever its result
 Consume(at, hit) ==
     /\ wpc = at /\ ~rep /\ cur # 0
@@ -174,6 +191,7 @@ Consume(at, hit) ==
          /\ lastRes' = r
          /\ rep' = (r = "val")
     /\ cur' = 0 /\ cnt' = cnt + 1
+    /\ consSince' = (IF waiting # {} THEN consSince + 1 ELSE 0)
     /\ IF at = "Drain" /\ (cnt + 1) % K = 0 /\ dl
          THEN status' = "Hit" /\ wpc' = hit
          ELSE UNCHANGED <<status, wpc>>
@@ -183,20 +201,30 @@ Report ==
     /\ rep /\ rep' = FALSE /\ lastRes' = "report"
     /\ UNCHANGED <<queue, token, wpc, cnt, status, cur, chan, waiting, ebw, written, fl, closed,
                    dl, done>> /\ WUnch
+    /\ UNCHANGED consSince
 SkipReport ==
     /\ rep /\ rep' = FALSE
     /\ UNCHANGED <<queue, token, wpc, cnt, status, cur, chan, waiting, ebw, written, fl, closed,
                    dl, done, lastRes>> /\ WUnch
+    /\ UNCHANGED consSince
 
+\* what a drain pass is credited with against the tracked batch: the number of entries it POPPED
+\* (handed to the stream), whatever the stream answered. UnderCount is FALSE; the negative
+\* configuration MC_neg_credit.cfg overrides it (a pass that ended with a rejected entry is not
+\* credited) to show that EbwExact is not vacuous.
+UnderCount == FALSE
+BugOn == TRUE
+Credit == IF UnderCount /\ lastRes \in {"val", "io", "report"} THEN 0 ELSE cnt
 \* WakerTracker::handle_waiting_wakers, first half: count down, flush if the batch is due
 Handle ==
     /\ wpc = "Handle" /\ ~rep
     /\ IF waiting = {}
          THEN /\ wpc' = "HCollect" /\ UNCHANGED <<ebw, fl>>
-         ELSE LET e1 == IF ebw > cnt THEN ebw - cnt ELSE 0 IN
+         ELSE LET e1 == IF ebw > Credit THEN ebw - Credit ELSE 0 IN
               IF e1 = 0 \/ status = "Drained"
                 THEN /\ fl' = Len(written) /\ ebw' = 0 /\ wpc' = "HWake"   \* flush_stream()
                 ELSE /\ ebw' = e1 /\ wpc' = "HCollect" /\ UNCHANGED fl
+    /\ UNCHANGED consSince
     /\ UNCHANGED <<queue, token, cnt, status, cur, chan, waiting, written, closed, dl, done,
                    lastRes, rep>> /\ WUnch
 \* waiting_wakers.clear(): the signals are dropped one after the other
@@ -207,6 +235,7 @@ HWake ==
          ELSE \E f \in waiting : waiting' = waiting \ {f} /\ done' = done \cup {f} /\ UNCHANGED wpc
     /\ UNCHANGED <<queue, token, cnt, status, cur, chan, ebw, written, fl, closed, dl, lastRes,
                    rep>> /\ WUnch
+    /\ UNCHANGED consSince
 \* second half: collect newly sent signals if no batch is being tracked; then the decisions of
 \* the inner loop (deadline hit / shutdown flag / park or not)
 HCollect ==
@@ -214,7 +243,8 @@ HCollect ==
     /\ IF waiting = {}
          THEN /\ waiting' = SeqRange(chan) /\ chan' = <<>>
               /\ ebw' = IF chan # <<>> THEN Cap ELSE ebw
-         ELSE UNCHANGED <<waiting, chan, ebw>>
+              /\ consSince' = 0
+         ELSE UNCHANGED <<waiting, chan, ebw, consSince>>
     /\ wpc' = IF status = "Hit" \/ flag THEN "OuterFlush"
               ELSE IF waiting' # {} THEN "AfterPark" ELSE "Park"
     /\ UNCHANGED <<queue, token, cnt, status, cur, written, fl, closed, dl, done, lastRes, rep>>
@@ -225,32 +255,38 @@ Park ==
     /\ token' = FALSE /\ wpc' = "AfterPark"
     /\ UNCHANGED <<queue, cnt, status, cur, chan, waiting, ebw, written, fl, closed, dl, done,
                    lastRes, rep>> /\ WUnch
+    /\ UNCHANGED consSince
 AfterPark ==
     /\ wpc = "AfterPark"
     /\ wpc' = (IF dl THEN "OuterFlush" ELSE "Drain") /\ cnt' = 0
     /\ UNCHANGED <<queue, token, status, cur, chan, waiting, ebw, written, fl, closed, dl, done,
                    lastRes, rep>> /\ WUnch
+    /\ UNCHANGED consSince
 OuterFlush ==
     /\ wpc = "OuterFlush"
     /\ fl' = Len(written) /\ wpc' = "ExitCheck"
     /\ UNCHANGED <<queue, token, cnt, status, cur, chan, waiting, ebw, written, closed, dl, done,
                    lastRes, rep>> /\ WUnch
+    /\ UNCHANGED consSince
 \* shutdown flag, or no queue handle left (Arc::get_mut succeeds)
 ExitCheck ==
     /\ wpc = "ExitCheck"
     /\ wpc' = (IF flag \/ refs = 0 THEN "SDrain" ELSE "OuterStart")
     /\ UNCHANGED <<queue, token, cnt, status, cur, chan, waiting, ebw, written, fl, closed, dl,
                    done, lastRes, rep>> /\ WUnch
+    /\ UNCHANGED consSince
 SFlush ==
     /\ wpc = "SFlush" /\ ~rep
     /\ fl' = Len(written) /\ wpc' = "Close"
     /\ UNCHANGED <<queue, token, cnt, status, cur, chan, waiting, ebw, written, closed, dl, done,
                    lastRes, rep>> /\ WUnch
+    /\ UNCHANGED consSince
 Close ==
     /\ wpc = "Close"
     /\ closed' = TRUE /\ wpc' = "ExitWake"
     /\ UNCHANGED <<queue, token, cnt, status, cur, chan, waiting, ebw, written, fl, dl, done,
                    lastRes, rep>> /\ WUnch
+    /\ UNCHANGED consSince
 \* returning from run drops the tracker and the receiver: every signal still held completes
 ExitWake ==
     /\ wpc = "ExitWake"
@@ -263,6 +299,7 @@ ExitWake ==
                 /\ UNCHANGED <<waiting, wpc>>
     /\ UNCHANGED <<queue, token, cnt, status, cur, ebw, written, fl, closed, dl, lastRes, rep>>
     /\ WUnch
+    /\ UNCHANGED consSince
 
 Writer ==
     \/ OuterStart
@@ -330,6 +367,11 @@ NoLossAtEnd == (wpc = "Done" /\ displaced = {} /\ hstate = "joined") =>
 \* counted against it; ebw never exceeds Cap and is positive exactly while a batch waits
 BoundedBatch == /\ ebw <= Cap
                 /\ (wpc \in {"Park", "AfterPark", "Drain", "OuterStart"} /\ waiting # {}) => ebw > 0
+\* C04 (bounded progress, integration of run / drain_until_deadline / the tracker): every entry handed to
+\* the stream since the batch was collected has been credited against it once the pass has been handled -
+\* so the batch is released after at most Cap further hand-offs plus the pass in progress, whatever the
+\* stream answers and however long producers keep the queue non-empty
+EbwExact == (wpc = "HCollect" /\ waiting # {}) => ebw = (IF Cap > consSince THEN Cap - consSince ELSE 0)
 \* S2: the writer never parks while a batch is waiting (no lost wake-up of a flush)
 NoParkWithWaiters == wpc = "Park" => waiting = {}
 \* C05
